@@ -48,6 +48,20 @@ pub fn check_exp(c: &ExpArg) -> Verdict {
     // the result carries the default precision: p digits (p+1 only for a rounding carry into 10..0)
     let rd = bdoracle::dec::ndigits(&r.int);
     let carried = rd == p + 1 && r.canonical().int.magnitude() == &num_bigint::BigUint::from(1u8);
+    if carried {
+        v.labels.push("carried-into-power-of-ten");
+    }
+    {
+        let digits = r.int.magnitude().to_string();
+        let nines = digits.bytes().take_while(|b| *b == b'9').count();
+        let zeros = digits.bytes().skip(1).take_while(|b| *b == b'0').count();
+        if nines >= 90 || (digits.starts_with('1') && zeros >= 90) {
+            v.labels.push("result-within-1e-90-of-a-power-of-ten");
+        }
+    }
+    if c.d.ndigits() > 40 {
+        v.labels.push("argument-longer-than-40-digits");
+    }
     ensure!(v, rd == p || carried, "C13/digits", "exp({}) has {} significant digits, expected {}", mx.show(), rd, p);
     match judge(&mx, &r, p, 1) {
         (ExpVerdict::Within, _) => {}
@@ -84,11 +98,15 @@ pub fn check_pair(c: &ExpPair) -> Verdict {
 
 // ---------------------------------------------------------------- generators
 
-const LN10: &str = "2302585092994045684017991454684364207601101488628772976033327900967572609677352480235997205089598298341967784042286";
+// 150 digits of ln 10 (mpmath, checked again by the oracle enclosure of e^LN10 in the self-test)
+const LN10: &str = "230258509299404568401799145468436420760110148862877297603332790096757260967735248023599720508959829834196778404228624863340952546508280675666628736909";
 
 /// (digits, magnitude) bounded so that digits * |x| stays below `budget`
 fn arg_strategy(max_abs: u32, budget: u64) -> BoxedStrategy<ExpArg> {
-    (gen::udigits(40), any::<bool>(), -60i32..=3, 0..20u8)
+    // magnitudes: 40% |x| in 0.1..1000 (many series terms), 20% 1e-5..0.1, 25% 1e-60..1e-5, 15% below 1e-61
+    // (1 + x rounds to 1.00..0 or 0.99..9 at the 100th digit)
+    let mag = prop_oneof![8 => 0i32..=3, 4 => -5i32..=-1, 5 => -60i32..=-6, 3 => -130i32..=-61];
+    (gen::udigits(40), any::<bool>(), mag, 0..20u8)
         .prop_map(move |(digits, neg, mag, zero)| {
             if zero == 0 {
                 return ExpArg { d: D::new("0", mag as i64) };
@@ -124,9 +142,11 @@ fn arg_strategy(max_abs: u32, budget: u64) -> BoxedStrategy<ExpArg> {
 
 /// x = k*ln(10) +- eps: e^x crosses a power of ten
 fn near_ln10_strategy(max_k: i64) -> BoxedStrategy<ExpArg> {
-    (-max_k..=max_k, 8usize..=40, -9i64..=9, 3u32..=36)
-        .prop_map(|(k, keep, d, j)| {
-            // ln10 truncated to `keep` digits, times k, plus d * 10^-j
+    (-max_k..=max_k, prop_oneof![8usize..=40, 100usize..=150], -9i64..=9, 3u32..=36, 95u32..=108)
+        .prop_map(|(k, keep, d, j, j_long)| {
+            // ln10 truncated to `keep` digits, times k, plus d * 10^-j; with 100+ digits of ln10 and j around 100
+            // e^x = 10^k (1 + d*10^-j): the 100-digit result sits on either side of a power of ten (0.99..9x / 1.00..0x)
+            let (k, j) = if keep >= 100 { (k % 13, j_long) } else { (k, j) };
             let l: num_bigint::BigInt = LN10[..keep].parse().unwrap();
             let scale = keep as i64 - 1;
             let v = Dec::new(l * k, scale as i128).add(&Dec::new(num_bigint::BigInt::from(d), j as i128));
@@ -137,11 +157,16 @@ fn near_ln10_strategy(max_k: i64) -> BoxedStrategy<ExpArg> {
 
 /// long digit strings (41..max digits, every shape incl. all nines) with |x| < 10
 fn long_digits_strategy(max_digits: usize) -> BoxedStrategy<ExpArg> {
-    (gen::digspec(max_digits), any::<bool>(), -6i64..=1, 41usize..=160)
+    (gen::digspec(max_digits), any::<bool>(), -6i64..=2, 41usize..=160)
         .prop_map(|(spec, neg, mag, minlen)| {
             let mut digits = gen::digits_of(&spec);
             if digits == "0" {
                 digits = "9".into();
+            }
+            // 10 <= |x| < 100: the cost grows with digits * |x|, keep those strings to 41..90 digits
+            let minlen = if mag == 2 { minlen.min(90) } else { minlen };
+            if mag == 2 && digits.len() > 90 {
+                digits.truncate(90);
             }
             // stretch short strings by repetition so that the argument really is long
             let base = digits.clone();
@@ -198,10 +223,37 @@ pub fn run(ctx: &Ctx) {
         |i| Some(ExpArg { d: D::new((i as i64 % 2401 - 1200).to_string(), 1 + (i / 2401) as i64) }),
         check_exp,
     );
+    ctx.enumerated(
+        "integer-representations",
+        "exp",
+        241 * 4,
+        true,
+        "EXHAUSTIVE: every integer in -120..120 written with 3 and 40 trailing fractional zeros, as (10k, scale 1), and multiples of ten with a negative scale (12e1)",
+        |i| {
+            let k = i as i64 % 241 - 120;
+            if k == 0 {
+                return Some(ExpArg { d: D::new("0", [3, 40, 1, -1][(i / 241) as usize]) });
+            }
+            Some(ExpArg {
+                d: match i / 241 {
+                    0 => D::new(format!("{}000", k), 3),
+                    1 => D::new(format!("{}{}", k, "0".repeat(40)), 40),
+                    2 => D::new(format!("{}0", k), 1),
+                    _ => {
+                        if k % 10 != 0 || k == 0 {
+                            return None;
+                        }
+                        D::new((k / 10).to_string(), -1)
+                    }
+                },
+            })
+        },
+        check_exp,
+    );
     let max_abs = t.pick(120u32, 1000);
     let budget = t.pick(4_000u64, 40_000);
-    ctx.generated("random-arguments", "exp", t.pick(20_000, 100_000), "1..40-digit arguments with magnitudes 1e-60..max, both signs, zeros with a scale; digits*|x| bounded", move || arg_strategy(max_abs, budget), check_exp);
-    ctx.generated("long-digit-strings", "exp", t.pick(3_000, 20_000), "arguments of 41..max digits (all shapes: random, all nines, near powers of two, ...) with |x| < 10", move || long_digits_strategy(t.pick(300, 1200)), check_exp);
-    ctx.generated("near-k-ln10", "exp", t.pick(5_000, 12_000), "x = k*ln(10) (ln10 cut to 8..40 digits) +- d*10^-j: e^x next to a power of ten", move || near_ln10_strategy(t.pick(50, 430)), check_exp);
+    ctx.generated("random-arguments", "exp", t.pick(20_000, 100_000), "1..40-digit arguments with magnitudes 1e-130..max (40% in 0.1..max), both signs, zeros with a scale; digits*|x| bounded", move || arg_strategy(max_abs, budget), check_exp);
+    ctx.generated("long-digit-strings", "exp", t.pick(3_000, 20_000), "arguments of 41..max digits (all shapes: random, all nines, near powers of two, ...) with |x| < 10, and of 41..90 digits with 10 <= |x| < 100", move || long_digits_strategy(t.pick(300, 1200)), check_exp);
+    ctx.generated("near-k-ln10", "exp", t.pick(5_000, 12_000), "x = k*ln(10) (ln10 cut to 8..40 digits) +- d*10^-j: e^x next to a power of ten; half of the cases with 100..150 digits of ln10, |k| <= 12 and j in 95..108, so that the 100-digit result straddles the power of ten (carry into 10..0)", move || near_ln10_strategy(t.pick(50, 430)), check_exp);
     ctx.generated("order-pairs", "pair", t.pick(5_000, 20_000), "x and x + d*10^-j relative: exp must not decrease by more than two units", move || pair_strategy(max_abs.min(300), budget / 2), check_pair);
 }
